@@ -71,3 +71,11 @@ CASES += [
     {"name": "kernel accumulates into the caller's initial vector (the repaired defect)", "kind": "mutant", "rule": "C15-E3", "edits": [
         ("quantarhei/qm/propagators/oqssvpropagator.py", "    psi2 = numpy.array(psii)\n", "    psi2 = psii\n", 1)]},
 ]
+
+_NEF15 = "quantarhei/qm/liouvillespace/nefoerstertensor.py"
+CASES += [
+    {"name": "initial term accumulated into a buffer kept on the tensor (seeded change of round 8)", "kind": "mutant", "rule": "C15-E8", "edits": [
+        (_NEF15, "        Na = self.II.shape[1]\n        Nt = self.II.shape[0]\n        II = numpy.zeros((Nt,Na,Na), dtype=COMPLEX)\n", "        Na = self.II.shape[1]\n        Nt = self.II.shape[0]\n        II = self.Iterm\n", 1)]},
+    {"name": "initial term accumulated into a buffer zeroed at the start of the call", "kind": "twin", "edits": [
+        (_NEF15, "        Na = self.II.shape[1]\n        Nt = self.II.shape[0]\n        II = numpy.zeros((Nt,Na,Na), dtype=COMPLEX)\n", "        Na = self.II.shape[1]\n        Nt = self.II.shape[0]\n        self.Iterm = numpy.zeros((Nt,Na,Na), dtype=COMPLEX)\n        II = self.Iterm\n", 1)]},
+]
